@@ -1004,6 +1004,12 @@ bool DTDScanner::scanCharRef(XMLCh& first, XMLCh& second)
          else
         {
             value = (value * radix) + nextVal;
+            // Guard against overflow.
+            if (value > 0x10FFFF) {
+                // Character reference was not in the valid range
+                fScanner->emitError(XMLErrs::InvalidCharacterRef);
+                return false;
+            }
         }
 
         // Indicate that we got at least one good digit
